@@ -113,6 +113,24 @@ Theorem inflight_compound_pins_client41 : forall cfg c0 evs t,
 Proof. exact inflight_compound_pins_client. Qed.
 Print Assumptions inflight_compound_pins_client41.
 
+(* p.now never runs ahead of the injected clock (every interleaving): the
+   model's time base and the monitor's lm_clock agree whenever enter() runs. *)
+Theorem reachable_now_le_clock41 : forall cfg c0 evs,
+  st_now (fst (run (init cfg c0) evs)) <= st_clock (fst (run (init cfg c0) evs)).
+Proof. exact reachable_now_le_clock. Qed.
+Print Assumptions reachable_now_le_clock41.
+
+(* Hence, over all histories: enter() discards only incarnations that are not
+   held and whose lastSeen + lease lies before the reading of the injected
+   clock - exactly the comparison C18:client-expired-within-lease makes with
+   its own "last heard" time. *)
+Theorem reachable_expiry_before_clock41 : forall cfg c0 evs id c,
+  let st := fst (run (init cfg c0) evs) in
+  cfind id st = Some c -> cfind id (fst (enter st)) = None ->
+  c_hold c = 0 /\ c_seen c + cf_lease (st_cfg st) < st_clock st /\ st_now (fst (enter st)) = st_clock st.
+Proof. exact reachable_expiry_before_clock. Qed.
+Print Assumptions reachable_expiry_before_clock41.
+
 (* The monitor accepts the model's trace of a client heard of only through
    SEQUENCE for 5.1 lease periods (one compound in flight for 1.4 leases);
    both clients are still registered then and expire after two leases of
